@@ -546,6 +546,7 @@ func (tr *Tr) invoke(fr *Frame, site ssa.Instruction, c *ssa.CallCommon, rt type
 		}
 		return Val{n}, n, e
 	}
+	tr.atCallAssertsName(fr, site, name, c, args)
 	// interface contract written in a contract file takes precedence
 	if ic := tr.ifaceContract(c); ic != nil {
 		return tr.callIfaceContract(fr, site, c, ic, recv, args, rt)
@@ -1026,10 +1027,14 @@ func (tr *Tr) callIfaceContract(fr *Frame, site ssa.Instruction, c *ssa.CallComm
 
 // at-call assertions of the enclosing contract
 func (tr *Tr) atCallAsserts(fr *Frame, site ssa.Instruction, sf *ssa.Function, c *ssa.CallCommon, args []Val) {
+	tr.atCallAssertsName(fr, site, sf.Name(), c, args)
+}
+
+// atCallAssertsName: call-site assertions addressed by callee (or interface method) name and ordinal.
+func (tr *Tr) atCallAssertsName(fr *Frame, site ssa.Instruction, nm string, c *ssa.CallCommon, args []Val) {
 	if fr.contract == nil || len(fr.contract.AtCalls) == 0 {
 		return
 	}
-	nm := sf.Name()
 	fr.callOrd["at:"+nm]++
 	ord := fr.callOrd["at:"+nm] - 1
 	listed := false
